@@ -16,6 +16,7 @@ Raw deck function — one `Kravatte` object:
   vatte <bits> <flags>              Vatte(out, bits, flags)              -> out | err
   kravatte <flags> <outlen> <in>    Kravatte(in, out, flags)             -> out | err
   dump <k|r|x|y|q|o>                (hook) internal state                -> bytes
+  new ; op ; op ; …                 a whole transcript as one case      -> out;out;…
 Vector replay: an operation may carry a last word `=<value>`, the value published in
 `kravatte/testdata`; the model ignores it, the harness answers `<own output> !vector` when the real
 code's output differs from it (so a deviation of either side from the vector shows in the diff).
@@ -116,7 +117,12 @@ def stepOp (s : DS) : List String → DS × String
     | none => (s, "bad-op")
   | _ => (s, "bad-op")
 
-def stepLine (s : DS) (ws : List String) : DS × String := stepOp s (stripExpect ws)
+def stepOne (s : DS) (ws : List String) : DS × String := stepOp s (stripExpect ws)
+
+def stepLine (s : DS) (ws : List String) : DS × String :=
+  match ws with
+  | "new" :: ";" :: rest => runScript stepOne s rest
+  | _ => stepOne s ws
 
 def main (_ : List String) : IO Unit := loopLines stepLine {}
 
